@@ -4,6 +4,7 @@ package verifrt
 
 import (
 	"fmt"
+	"os"
 	"sync"
 	"time"
 )
@@ -220,7 +221,14 @@ func (b *BFS) Replay(h []Event) System {
 		if b.Before != nil {
 			pre = b.Before(s, e)
 		}
-		b.apply(s, e)
+		ch := b.apply(s, e)
+		if os.Getenv("VERIF_TRACE") != "" {
+			fmt.Fprintf(os.Stderr, "--- after event %d %s (choices %v)\n", i, e.String(), e.C)
+			if ch != nil {
+				fmt.Fprintf(os.Stderr, "choice points: trace=%v ns=%v\n", ch.Trace, ch.Ns)
+			}
+			fmt.Fprintln(os.Stderr, s.Key())
+		}
 		if b.After != nil {
 			b.After(s, h[:i+1], e, pre, true)
 		}
